@@ -648,7 +648,7 @@ def op_bytes(api, op, arch):
 def stream_oracle(api, ops, arch, sw):
     """cross-queue property on the implementation's stream: sw = per op [is_dma, blockdep, [(code, n)...waits before it]]
     (decoded words); pessimistic replay with exact byte sets of the API operations"""
-    md, mk = arch.max_outstanding_dma, arch.max_outstanding_kernels
+    md, mk = hw_limits(arch.is_ethos_u65_system)
     pk, pd = [], []
     foot = [op_bytes(api, op, arch) for op in ops]
     for i, (isdma, _bd, waits) in enumerate(sw):
@@ -684,9 +684,18 @@ def parse_stream_waits(out):
     return res
 
 
+def hw_limits(u65):
+    """(max outstanding DMA, max outstanding kernel operations) of the HARDWARE, pinned here as the property text's "both U55
+    and U65 outstanding limits" (trusted hardware fact; equal to ArchitectureFeatures.max_outstanding_* of the unchanged tree).
+    The compiler's own belief is introspected into gen/GenTables.v; if it drops below these, hazards become possible."""
+    return (2, 2) if u65 else (1, 2)
+
+
 def hz_args(row):
-    """ncores lut_addr shram_usable max_dma max_kern from an accelerator row of gen/GenTables.v"""
-    return [row["a_ncores"], row["a_lut_address"], row["a_total_banks"] * row["a_bank_size"], row["a_max_dma"], row["a_max_kern"]]
+    """ncores lut_addr shram_usable max_dma max_kern for the validator; structural constants from the accelerator row of
+    gen/GenTables.v, the outstanding limits from the pinned hardware table"""
+    md, mk = hw_limits(row["a_u65"])
+    return [row["a_ncores"], row["a_lut_address"], row["a_total_banks"] * row["a_bank_size"], md, mk]
 
 
 # =====================================================================================================================
